@@ -16,6 +16,9 @@ use std::sync::Arc;
 // ---- abstract time -----------------------------------------------------------------------------
 #[derive(Clone, Copy)]
 pub struct Duration { pub ns: u128 }
+impl Duration {
+    pub fn is_zero(&self) -> (r: bool) ensures r == (self.ns == 0) { self.ns == 0 }
+}
 impl vstd::std_specs::ops::AddSpecImpl<Duration> for Duration {
     open spec fn obeys_add_spec() -> bool { true }
     // std's Duration addition panics on overflow (> u64::MAX seconds): stated precondition
